@@ -71,10 +71,12 @@ class PROP(PropCheck):
     id = "C12"
     mismatch_is_failure = False
     theorems = ["C12_exit0_iff_completed", "C12_check_is_pure", "C12_debug_mode_irrelevant_for_stdout", "C12_front_end_error",
-                "C12_mode_equivalence", "C12_deterministic"]
+                "C12_mode_equivalence", "C12_deterministic",
+                "C12_layout_invariant"]
+    audit_modules = ["C12", "C12b"]
     coq_imports = ["Obs"]
     model_targets = ["theories/Obs.vo"]
-    prop_targets = ["theories/Props/C12.vo"]
+    prop_targets = ["theories/Props/C12.vo", "theories/Props/C12b.vo"]
     uses_cli = True
     trusted_base = [
         "Coq 8.16.1 kernel and bytecode VM",
